@@ -388,7 +388,8 @@ def _const_context(call):
 def summary(P, q, index, depth, context=()):
     """Integrality of the (index-th element of the) value returned by repo function q over all its paths,
     under the literal arguments bound at the call, every other option symbolic."""
-    key = (id(P), q, index, context)
+    _integ_memo = P.__dict__.setdefault('_integ_memo', {})     # per program: ids of dead programs are reused
+    key = (q, index, context)
     if key in _integ_memo:
         return _integ_memo[key]
     if depth > 4:
